@@ -8,6 +8,10 @@ def run(ctx):
     n = 4 if ctx.quick else 48
     snis = ["example.com", "a-rather-long-server-name.subdomain.of.some.example-domain.org"]
     cases = [{"id": i, "sni": s, "n": n, "omit": omit, "tag": "c03"} for i in ids for s in snis for omit in (True, False)]
+    # the same parrots when another connection is built on the same *Config in between (shared Config state must not leak
+    # into a hello that was already built): partners = a TLS 1.2-only parrot, a TLS 1.3 parrot, a post-quantum parrot
+    partners = ["Firefox-55", "Chrome-133", "Chrome-58"] if ctx.quick else ids
+    cases += [{"id": i, "sni": snis[0], "n": 1, "omit": True, "tag": "shared", "shared_with": b} for i in ids for b in partners if b != i]
     evs = [e for e in ctx.drv("hellos", {"cases": cases}) if e["ev"] == "Hello"]
     # PSK parrots without OmitEmptyPsk and without a session legitimately emit nothing / or an error: only
     # hellos that were actually sent are judged (C03 speaks about the ClientHello sent).
@@ -37,15 +41,8 @@ def run(ctx):
         if not done or done[0] != len(part):
             raise vlib.Machinery("C03 trace validation did not reach the end of the batch: %r" % (done,))
         validated += len(part)
-        for (i, why) in [(r[0], r[1]) for r in [x if isinstance(x, list) else [x] for x in []]]:
-            pass
-        for line in res.out.splitlines():
-            if line.startswith('<<"REJ"'):
-                import re
-                m = re.match(r'<<"REJ", (\d+), (.*)>>', line)
-                idx = int(m.group(1)); why = m.group(2).strip('"')
-                ev = part[idx-1]
-                total_rej.append((ev, why))
+        for idx, why in res.tagged("REJ"):
+            total_rej.append((part[idx - 1], str(why).replace('"', '')))
     ctx.traces += validated
     for ev, why in total_rej:
         ctx.finding("mismatch:%s:%s" % (ev["id"], why),
